@@ -54,7 +54,14 @@ func TestReductions(t *testing.T) {
 		var m Mutex
 		var log []int
 		th := func(id int) ThreadSpec {
-			return ThreadSpec{Name: fmt.Sprint(id), Body: func() { m.Lock(); log = append(log, id); m.Unlock(); m.Lock(); log = append(log, id+10); m.Unlock() }}
+			return ThreadSpec{Name: fmt.Sprint(id), Body: func() {
+				m.Lock()
+				log = append(log, id)
+				m.Unlock()
+				m.Lock()
+				log = append(log, id+10)
+				m.Unlock()
+			}}
 		}
 		return []ThreadSpec{th(1), th(2)}, func() string { return fmt.Sprint(log) }
 	})
@@ -63,8 +70,22 @@ func TestReductions(t *testing.T) {
 		var m1, m2 Mutex
 		var a, b []int
 		return []ThreadSpec{
-			{Name: "A", Body: func() { m1.Lock(); a = append(a, 1); m1.Unlock(); m2.Lock(); b = append(b, 1); m2.Unlock() }},
-			{Name: "B", Body: func() { m2.Lock(); b = append(b, 2); m2.Unlock(); m1.Lock(); a = append(a, 2); m1.Unlock() }},
+			{Name: "A", Body: func() {
+				m1.Lock()
+				a = append(a, 1)
+				m1.Unlock()
+				m2.Lock()
+				b = append(b, 1)
+				m2.Unlock()
+			}},
+			{Name: "B", Body: func() {
+				m2.Lock()
+				b = append(b, 2)
+				m2.Unlock()
+				m1.Lock()
+				a = append(a, 2)
+				m1.Unlock()
+			}},
 			{Name: "C", Body: func() { m1.Lock(); a = append(a, 3); m1.Unlock() }},
 		}, func() string { return fmt.Sprint(a, b) }
 	})
